@@ -1073,6 +1073,8 @@ class CExec:
             spec = self.cur_contract.loops.get(ordinal)
         else:
             spec = self.cur_contract.loops.get((self.fn_stack[-1][0], ordinal))
+        if spec is None and getattr(self.cur_contract, "auto_range", False) and is_for:
+            spec = self.auto_range_spec(st, n, cond, inc)
         if spec is not None:
             if getattr(spec, "fill", False):
                 return self.exec_loop_fill(st, n, cond, inc, body, ordinal)
@@ -1303,6 +1305,30 @@ class CExec:
                 results.append((x, fl, v))
         return results
 
+    def auto_range_spec(self, st, n, cond, inc):
+        """for (v = e; v < hi; v++) with symbolic trip count and no contract entry: the invariant v >= e
+        (checked like any other invariant); None if the loop is concrete or does not match."""
+        from .core import LoopSpec
+        c = self._strip(cond) if cond and cond.get("kind") else None
+        if c is None or c["kind"] != "BinaryOperator" or c["opcode"] not in ("<", "<="):
+            return None
+        iv = self._strip(c["inner"][0])
+        if iv["kind"] != "DeclRefExpr":
+            return None
+        did = iv["referencedDecl"]["id"]
+        if not (inc and inc.get("kind") == "UnaryOperator" and inc["opcode"] == "++" and
+                self._strip(inc["inner"][0]).get("referencedDecl", {}).get("id") == did):
+            return None
+        cc = is_concrete_bool(to_bool(self.rvalue(st.clone(), cond)))
+        if cc is not None:
+            return None
+        init = st.vars[did]
+        name = iv["referencedDecl"]["name"]
+
+        def inv(V, init=init, name=name):
+            return [("auto-range", V.v[name] >= init)]
+        return LoopSpec(inv)
+
     def exec_loop_fill(self, st, n, cond, inc, body, ordinal):
         """Schema for `for (i = 0; i < N; i++) { a[i] = c; ... }` over the whole flat extent of a block:
         accepted only if the pattern is matched syntactically and N equals the block's size as a polynomial;
@@ -1399,7 +1425,141 @@ class CExec:
             return None
         cap = [c for c in n["inner"] if c.get("kind") == "CapturedStmt"][0]
         f = find_for(cap)
-        return self.exec_loop(st, f, True)
+        if not getattr(self.cur_contract, "race", False):
+            return self.exec_loop(st, f, True)
+        return self.exec_omp_race(st, n, f)
+
+    def pragma_text(self, for_node):
+        """source text of the '#pragma omp ...' line(s) in front of the loop"""
+        off = for_node["range"]["begin"].get("offset")
+        if off is None:
+            off = for_node["range"]["begin"]["expansionLoc"]["offset"]
+        txt = self.cur_file.text[:off]
+        k = txt.rfind("#pragma omp")
+        if k < 0:
+            raise CheckerError("no #pragma omp in front of the parallel loop")
+        seg = txt[k:]
+        seg = seg.replace("\\\n", " ")
+        seg = seg.split("#endif")[0]
+        return " ".join(seg.replace("\\", " ").split())
+
+    def exec_omp_race(self, st, n, f):
+        import re
+        prag = self.pragma_text(f)
+        priv = set()
+        for m in re.finditer(r"private\s*\(([^)]*)\)", prag):
+            priv.update(x.strip() for x in m.group(1).split(","))
+        init, cond, inc, body = self.loop_parts(f, True)
+        lv = self._strip(init["inner"][0] if init["kind"] == "BinaryOperator" else init)
+        if init["kind"] != "BinaryOperator" or lv["kind"] != "DeclRefExpr":
+            raise CheckerError("omp loop init is not 'v = e'")
+        loop_id = lv["referencedDecl"]["id"]
+        loop_name = lv["referencedDecl"]["name"]
+        ordinal = self.ordinal_of(f)
+        tag = "omp%d" % ordinal
+        # (a) every scalar assigned in the body is the loop variable, declared inside, or private
+        mv, mb = self.modset(st, body)
+        declared_inside = set()
+
+        def decls(x):
+            if isinstance(x, dict):
+                if x.get("kind") == "VarDecl":
+                    declared_inside.add(x["id"])
+                for c_ in x.get("inner", []) or []:
+                    decls(c_)
+        decls(body)
+        for did in sorted(mv):
+            nm = st.names.get(did, "?")
+            if did == loop_id or did in declared_inside or nm in priv:
+                continue
+            v = st.vars.get(did)
+            ob = self.sink.add(self.prefix, "race", list(st.pc), z3.BoolVal(False),
+                               meta={"label": "%s: scalar '%s' is assigned in the parallel body but is shared (not private)" % (tag, nm),
+                                     "line": self.cur_file.line_of(f), "src": prag})
+        ob = self.sink.add(self.prefix, "race", [], z3.BoolVal(True),
+                           meta={"label": "%s: scalars assigned in the body are private/local (%s)" % (tag, prag), "src": prag})
+        ob.status = "discharged"
+        ob.solver = "syntactic"
+        # (b) array accesses: run the loop (sequential semantics) with access logging
+        start_id = next(Block._ids)
+        saved_log = self.write_log
+        self.write_log = []
+        self.omp_private_names = priv
+        outs = self.exec_loop(st, f, True)
+        log = self.write_log
+        self.write_log = saved_log
+        # group accesses by block / index tuple
+        by_block = {}
+        for kind, b, comps, pc, node in log:
+            if b.id > start_id:
+                continue                      # block created inside the parallel region: thread-private
+            if b.name in priv:
+                continue                      # listed in private(...)
+            key = (kind, tuple(simp(c).sexpr() for c in comps))
+            ent = by_block.setdefault(b, {})
+            if key not in ent:
+                ent[key] = [kind, comps, [pc], node]
+            else:
+                ent[key][2].append(pc)
+        for b, ent in by_block.items():
+            writes = [e for e in ent.values() if e[0] == "w"]
+            if not writes:
+                continue
+            for w in writes:
+                for e in ent.values():
+                    self.race_obligation(tag, b, w, e, start_id, loop_name, f)
+        return outs
+
+    def race_obligation(self, tag, b, w, e, start_id, loop_name, f):
+        """no two different iterations touch the same cell of b through accesses w (write) and e"""
+        def pcs(lst):
+            alts = [z3.And(*p) if p else z3.BoolVal(True) for p in lst]
+            return z3.Or(*alts) if len(alts) > 1 else alts[0]
+        wc, ec = w[1], e[1]
+        wpc, epc = pcs(w[2]), pcs(e[2])
+        # rename iteration-local symbols (created after the parallel region started) in the second access
+        consts = {}
+
+        def collect(x):
+            if z3.is_const(x) and x.decl().kind() == z3.Z3_OP_UNINTERPRETED:
+                consts[x.decl().name()] = x
+            for c_ in x.children():
+                collect(c_)
+        for t in list(ec) + [epc]:
+            collect(t)
+        sub = []
+        lv1 = lv2 = None
+        for nm, c_ in consts.items():
+            import re as _re
+            mm = _re.search(r"!\D*(\d+)$", nm)
+            local = bool(mm) and int(mm.group(1)) > start_id
+            if local:
+                sub.append((c_, z3.Const(nm + "!other", c_.sort())))
+        ec2 = [z3.substitute(c_, *sub) if sub else c_ for c_ in ec]
+        epc2 = z3.substitute(epc, *sub) if sub else epc
+        # the loop variable inside the body is the havoc symbol named '<loop_name>@loopN!id'
+        ivs = [c_ for nm, c_ in consts.items() if nm.startswith(loop_name + "@loop")]
+        wconsts = {}
+
+        def collect2(x):
+            if z3.is_const(x) and x.decl().kind() == z3.Z3_OP_UNINTERPRETED:
+                wconsts[x.decl().name()] = x
+            for c_ in x.children():
+                collect2(c_)
+        for t in list(wc) + [wpc]:
+            collect2(t)
+        ivw = [c_ for nm, c_ in wconsts.items() if nm.startswith(loop_name + "@loop")]
+        if not ivw or not ivs:
+            # an access that does not depend on the iteration: any write to it is a race unless single iteration
+            distinct = z3.BoolVal(True)
+        else:
+            distinct = ivw[0] != z3.Const(ivs[0].decl().name() + "!other", ivs[0].sort())
+        same = z3.And(*[a == b_ for a, b_ in zip(wc, ec2)])
+        goal = z3.Not(z3.And(wpc, epc2, distinct, same))
+        self.sink.add(self.prefix, "race", list(self.facts), goal,
+                      meta={"label": "%s: %s of %s%s vs %s %s%s in another iteration" % (
+                          tag, "write", b.name, [str(simp(c_)) for c_ in wc][:4], "write" if e[0] == "w" else "read", b.name, [str(simp(c_)) for c_ in ec][:4]),
+                          "line": self.cur_file.line_of(w[3]) if w[3] else None})
 
     # ------------------------------------------------------------ top level
     def number_loops(self, fn):
